@@ -236,8 +236,21 @@ def run(ck: Check):
     NDOC = int(os.environ.get("C16_NDOC") or ck.n(20, 200))
 
     # ---------------- programs
-    flavours = [None] * 10 + ["prefix-attrs", "prefix-attrs", "default-ns", "prefix-elements"]
+    flavours = [None] * 9 + ["prefix-attrs", "prefix-attrs", "default-ns", "prefix-attrs", "prefix-elements"]
     programs, regen = [], {}
+    replay = None
+    if getattr(ck, "replay_file", None):
+        import json
+        replay = json.load(open(ck.replay_file))["replay"]
+        if "desc" not in replay:
+            raise RuntimeError("replay file without a DTD description ('desc')")
+        docs = [replay["doc"]] if replay.get("doc") else []
+        if not docs:
+            dg = G.DocGen(replay["desc"], r)
+            docs = [x for x in (dg.document(st) for st in ("min", "max", "rand", "rand", "rand"))
+                    if G.validate(replay["dtd"], x)[0]]
+        programs.append({"d": replay["desc"], "dtd": replay["dtd"], "docs": docs})
+        NPROG = 1
     while len(programs) < NPROG:
         flav = flavours[len(programs) % len(flavours)]
         d = None
@@ -280,7 +293,7 @@ def run(ck: Check):
     ck.cov["evaluations"] = sum(len(p["docs"]) for p in programs) * 2
 
     def replay_of(run, **kw):
-        out = {"dtd": run["p"]["dtd"], "root": run["p"]["d"]["root"], "compound": run["compound"]}
+        out = {"dtd": run["p"]["dtd"], "root": run["p"]["d"]["root"], "compound": run["compound"], "desc": run["p"]["d"]}
         out.update(kw)
         return out
 
@@ -510,6 +523,9 @@ def run(ck: Check):
     ck.cov["input_distribution"] = {"programs": len(programs), "documents_per_program": NDOC, "flavours": {
         (f or "plain"): sum(1 for p in programs if p["d"]["flavour"] == (f or "plain")) for f in set(flavours)},
         "regenerated": regen, "element_kinds": kinds_of(programs)}
+    stats["validator_false_classes"] = len(witness_jobs)
+    ck.cov["programs"] = len(good)
+    ck.cov["disagreements_checked"] = stats["docs_parse_failed"] + stats["witness_confirmed"] + stats["witness_unconfirmed"]
     ck.cov.update(stats)
     ck.cov["coq_shard_seconds"] = shard_times
     ck.cov["samples"] = [{"dtd": p["dtd"], "doc": p["docs"][min(2, len(p["docs"]) - 1)]} for p in programs[:3]]
